@@ -316,6 +316,29 @@ def rule_free(ctx):
     ctx.ob('C16.free', f'{sp.fq}', ok, 'split partitions a block exactly (no overlap, no gap)', sp.node, mod)
 
 
+def rule_next_reaches_top(ctx):
+    ctx.rule('C16.free', '_find_next can return every block of the partition, the top block (the free tail, which starts exactly at `top`) '
+                         'included: its scan runs up to and including `top` and the final lookup is refused only beyond the partition size '
+                         '- otherwise a freed range next to the tail never merges with it and `top` never comes down')
+    ci = ctx.repo.cls('sc3.synth._engine:ContiguousBlockAllocator')
+    f = ci.methods['_find_next']
+    rets = [r for r in walk_local(f.node) if isinstance(r, ast.Return) and isinstance(r.value, ast.Subscript) and norm(r.value.value) == 'self._array']
+    ok, why = False, 'no `return self._array[...]` found'
+    if rets:
+        r = rets[-1]
+        idx = norm(r.value.slice)
+        tests = [p_.test for p_ in U.parent_chain(r) if isinstance(p_, ast.If) and U.in_body(r, p_, 'body')]
+        ok = bool(tests) and all(isinstance(t, ast.Compare) and len(t.ops) == 1 and isinstance(t.ops[0], ast.Lt) and norm(t.left) == idx
+                                 and norm(t.comparators[0]) == 'self.size' for t in tests[:1])
+        why = f'the lookup self._array[{idx}] is guarded by {[norm(t) for t in tests]}'
+    whiles = [w for w in walk_local(f.node) if isinstance(w, ast.While)]
+    incl = all(any(isinstance(c, ast.Compare) and any(isinstance(o, ast.LtE) for o in c.ops) and 'self.top' in norm(c) for c in ast.walk(w.test))
+               for w in whiles)
+    ctx.ob('C16.free', f'{f.fq}:reaches-the-top-block', ok and incl,
+           f'{why}; scan inclusive of top: {incl}. The guard must be `{"<index>"} < self.size` (every slot of the partition) and the scan '
+           f'`<= self.top`', f.node, ci.module)
+
+
 def rule_alloc_complete(ctx):
     ctx.rule('C16.free', 'alloc says "no space" only because _find_available found nothing: no return precedes that search (a shortcut '
                          'that looks at exact-size free lists or at the top alone misses a larger freed block that would serve the request)')
@@ -463,11 +486,15 @@ def run(ctx):
     rule_units(ctx)
     rule_free(ctx)
     rule_alloc_complete(ctx)
+    rule_next_reaches_top(ctx)
     rule_node(ctx)
     rule_part(ctx)
 
 
 MUTANTS = [
+    dict(rule='C16.free', name='_find_next stops below top: the free tail is never found as upper neighbour (seed C16-l)', file='sc3/synth/_engine.py',
+         old="        if i - self.addr_offset < self.size:\n            return self._array[i - self.addr_offset]\n        else:\n            return None\n\n    def _reserve(",
+         new="        if i < self.top:\n            return self._array[i - self.addr_offset]\n        else:\n            return None\n\n    def _reserve("),
     dict(rule='C16.free', name='alloc refuses before searching the free blocks (seed C16-g)', file='sc3/synth/_engine.py',
          old="    def alloc(self, n=1):\n        block = self._find_available(n)",
          new="    def alloc(self, n=1):\n        if n not in self._freed and self.top + n - self.addr_offset > self.size:\n            return None\n        block = self._find_available(n)"),
